@@ -291,7 +291,9 @@ func stressBuf(g, m, depth int, stall bool) string {
 	// flush: log sentinels until one arrives
 	ok := false
 	for end := time.Now().Add(10 * time.Second); time.Now().Before(end) && !ok; {
-		_ = root.Handle(ctx, slog.NewRecord(time.Time{}, slog.LevelInfo, string(sentinelMark)+"0", 0)) //nolint:errcheck // buffered
+		if callHandle(root, slog.NewRecord(time.Time{}, slog.LevelInfo, string(sentinelMark)+"0", 0)) == "ret=blocked" {
+			return "FAIL Handle blocked in buffered mode although the sink was free"
+		}
 		time.Sleep(200 * time.Microsecond)
 		s.mu.Lock()
 		for _, w := range s.writes {
